@@ -4,6 +4,7 @@ import FeatModel.Model.LA.Cscr
 import FeatModel.Model.LA.Bcsr
 import FeatModel.Model.LA.Banded
 import FeatModel.Model.LA.Dense
+import FeatModel.Model.LA.Meta
 /-! line-protocol driver for the C01 models (matrix-vector products of every LAFEM storage format);
     the line format is documented in harness/c01/main.cpp -/
 open FeatModel FeatModel.Proto FeatModel.LA
@@ -43,6 +44,26 @@ def runOp (op : String) (t : Tail) (nr nrT : Nat)
   | "axpyT" => pure (showR (ax t.x t.y (if t.alias then t.y else Array.replicate nrT sentinel) t.alpha t.alias true))
   | _ => throw s!"unknown op {op}"
 
+/-- prefix tree expression of a meta-matrix (see harness/c01/meta.cpp) -/
+partial def treeP : P (MetaMat Rat) := do
+  let t ← tok
+  match t with
+  | "R" => let f ← treeP; let r ← treeP; pure (.row f r)
+  | "C" => let f ← treeP; let r ← treeP; pure (.col f r)
+  | "D" => let f ← treeP; let r ← treeP; pure (.diag f r)
+  | "S" => let a ← treeP; let b ← treeP; let d ← treeP; pure (.saddle a b d)
+  | "csr" =>
+    let rows ← nat; let cols ← nat; let rp ← natList; let ci ← natList; let v ← ratList
+    pure (.csr { rows := rows, cols := cols, rowPtr := rp.toArray, colInd := ci.toArray, val := v.toArray })
+  | "bcsr" =>
+    let bh ← nat; let bw ← nat; let rows ← nat; let cols ← nat; let rp ← natList; let ci ← natList; let v ← ratList
+    pure (.bcsr { bh := bh, bw := bw, rows := rows, cols := cols, rowPtr := rp.toArray, colInd := ci.toArray,
+                  val := v.toArray })
+  | "dense" =>
+    let rows ← nat; let cols ← nat; let v ← ratList
+    pure (.dense { rows := rows, cols := cols, val := v.toArray })
+  | _ => throw s!"bad tree token {t}"
+
 def itP : P Unit := do
   let it ← nat
   if it != 32 && it != 64 then throw "bad index type"
@@ -80,7 +101,7 @@ def handle : P String := do
     let A : Cscr Rat := { rows := rows, cols := cols, rowPtr := rp.toArray, colInd := ci.toArray, val := v.toArray,
                           rowNumbers := rn.toArray }
     if op == "dense" then pure (showD rows cols A.toDense) else
-    match runOp op t rows cols (fun x r tr => A.apply tiny x r tr) (fun x y r al ali tr => A.applyAxpy tiny x y r al ali tr) with
+    match runOp op t rows cols (fun x r tr => A.applyQ x r tr) (fun x y r al ali tr => A.applyAxpyQ x y r al ali tr) with
     | .ok s => pure s
     | .error e => throw e
   | "bcsr" =>
@@ -96,8 +117,8 @@ def handle : P String := do
     if op == "dense" then pure (showD (rows * bh) (cols * bw) A.toDense) else
     -- the mixed overload (vk = 4) has no aliased form: r and y have different types
     let t := if vk == 4 then { t with alias := false } else t
-    match runOp op t (rows * bh) (cols * bw) (fun x r tr => A.apply tiny x r tr)
-        (fun x y r al ali tr => A.applyAxpy tiny x y r al ali tr) with
+    match runOp op t (rows * bh) (cols * bw) (fun x r tr => A.applyQ x r tr)
+        (fun x y r al ali tr => A.applyAxpyQ x y r al ali tr) with
     | .ok s => pure s
     | .error e => throw e
   | "banded" =>
@@ -123,6 +144,23 @@ def handle : P String := do
     match runOp op t rows cols (fun x r tr => A.applyQ x r tr) (fun x y r al ali tr => A.applyAxpyQ x y r al ali tr) with
     | .ok s => pure s
     | .error e => throw e
+  | "meta" =>
+    let ty ← tok; let op ← tok
+    let M ← treeP
+    let t ← tailP
+    -- TupleMatrix: the transposed members do not compile (FEAT defect, see checks/props/c01.py F4); a TupleMatrix
+    -- with a single row still offers the 2-argument apply_transposed
+    if ty.startsWith "tuple" && (op == "axpyT" || (op == "applyT" && !ty.startsWith "tuple1")) then pure "NOT-OFFERED" else
+    let tr := op == "applyT" || op == "axpyT"
+    let nOut := if tr then M.cols else M.rows
+    match op with
+    | "apply" | "applyT" =>
+      let r := Array.replicate nOut sentinel
+      pure (showR (M.goQ tr none t.x r r true))
+    | "axpy" | "axpyT" =>
+      let r := if t.alias then t.y else Array.replicate nOut sentinel
+      pure (showR (M.goQ tr (some t.alpha) t.x t.y r t.alias))
+    | _ => throw s!"unknown op {op}"
   | _ => throw s!"unknown format {fmt}"
 
 def step (ts : Toks) : String :=
